@@ -229,16 +229,13 @@ def run_case(case):
         probe = res
         want_regs = [val] if framing == 'binary' else [cur['h'][a] for a in range(30, 40)]
         sent = probe.sent.get(1, [])
-        ok = len(sent) == 2
         detail = 'responses: %r' % [s.hex() for s in sent]
-        if ok:
-            try:
-                p1 = refframe.parse_one(framing, sent[0])
-                p2 = refframe.parse_one(framing, sent[1])
-                ok = p1['pdu'] == w and p2['pdu'] == specpdu.encode('rsp:3', {'registers': want_regs})
-            except refframe.FrameError as e:
-                ok = False
-                detail = str(e)
+        try:
+            ps = [p_ for s_ in sent for p_ in refframe.parse_many(framing, s_)]
+            ok = len(ps) == 2 and ps[0]['pdu'] == w and ps[1]['pdu'] == specpdu.encode('rsp:3', {'registers': want_regs})
+        except refframe.FrameError as e:
+            ok = False
+            detail = str(e)
         if not ok:
             discs.append(Disc('probe', '%s/%s: after stream %s (cuts %r) a fresh connection is not served correctly: %s; escaped %r' % (
                 fe, framing, case['stream'][:80], case['cuts'], detail, probe.escaped)))
